@@ -13,6 +13,10 @@ _s.loader.exec_module(_m)
 WITEMS = copy.deepcopy(_m.UNIT['items'])
 # one more fact about the constructor is needed here (the default itself, not only the view)
 WITEMS['Widths::new']['ensures'].append(('new_default', 'r.default == default'))
+WITEMS['Widths::new']['ensures'].append(('new_extent', 'r.extent() == 0'))
+# the table never reaches beyond the highest code set so far (C14: memory in proportion to the codes named)
+for _k in ('Widths::_set', 'Widths::set'):
+    WITEMS[_k]['ensures'].append(('set_extent', 'final(self).extent() <= (if old(self).extent() > cid + 1 { old(self).extent() } else { cid + 1 })'))
 
 W = 'cid.widths@'
 DW = 'cid.default_width'
@@ -20,7 +24,7 @@ EFF = 'eff_font(*self)'
 EW = 'cid_of(%s).widths@' % EFF
 EDW = 'cid_of(%s).default_width' % EFF
 
-COMMON_INV = ['widths.wf()', ('default_is_dw', 'widths.default == %s' % DW)]
+COMMON_INV = ['widths.wf()', ('default_is_dw', 'widths.default == %s' % DW), ('within_cid_space', 'widths.extent() <= cid_limit()')]
 LIST_LOOP = {
     'invariant': COMMON_INV + [
         # codes c1 .. c1+i-1 carry the first i numbers of the array, every other code is as before the group
@@ -86,6 +90,8 @@ ITEMS['Font::widths'] = {
      # C19 / ISO 32000-1 9.7.4.3
      ('cid_table_is_iso_w',
       '(is_cidfont(%s) && w_wf(%s, resolve) && w_disjoint(%s, resolve)) ==> (r matches Ok(Some(t)) && forall|code: int| #[trigger] t.view_at(code) == w_spec(%s, resolve, %s, code))' % (EFF, EW, EW, EW, EDW)),
+     # C14: the table stays inside the CID space (<= 65536 entries, 256 KiB) whatever the array says
+     ('cid_table_within_cid_space', 'is_cidfont(%s) ==> (r matches Ok(Some(t)) ==> t.extent() <= cid_limit())' % EFF),
      # ---- every other font kind has no width table
      ('other_none', '(%s.data is Other) ==> r matches Ok(None)' % EFF),
   ],
@@ -121,5 +127,10 @@ UNIT = {
  'name': 'fontwidths',
  'doc': 'Font::widths: /W array of CID fonts (both group forms, /DW elsewhere), /FirstChar+/Widths of simple fonts, Type0 delegation',
  'timeout': 900,
+ 'deviations': {
+   'DEV_W_CODES_BEYOND_CID_SPACE': 'Font::widths accepts CIDs above 65535 (ISO 32000-1 Annex C) in /W: `/W [0 2147483647 500]` (a 612-byte '
+                                   'file) builds a dense table of 2^31 entries = 8 GiB or aborts on allocation failure. '
+                                   'See findings/w_code_beyond_cid_space.md (+ _fix.diff: with the fix applied the unit verifies with the deviation OFF)',
+ },
  'items': ITEMS,
 }
